@@ -66,7 +66,7 @@ package upstream
 // C16: a truncated UDP reply is retried over TCP with the same query; the caller gets the TCP outcome.
 //@ func (u *udpWithFallback) ExchangeContext(ctx context.Context, q []byte) (r *dnsmsg.Msg, err error)
 //@   props C16
-//@   requires u != nil && u.u != nil && u.t != nil && ctx != nil && len(q) <= 65535
+//@   requires u != nil && u.u != nil && u.u.pool != nil && u.t != nil && ctx != nil && len(q) <= 65535
 //@   requires rtInv(u.t) && u.t.logger != nil -- the TCP transport's monitor invariant (holds between its critical sections)
 // what an exchange returns on success is a decoded reply (it comes over a channel from the connection's reader)
 //@   assumecall ExchangeContext: ret1 == nil ==> ret0 != nil && fresh(ret0) && wfMsg(ret0)
@@ -138,3 +138,18 @@ package upstream
 //@   requires dialer != nil
 //@   modifies *
 //@   callsite DialContext: [C17:https-dials-dial-addr] arg3 == dialAddr && arg2 == ((len(dialAddr) >= 1 && dialAddr[0] == '@') ? "unix" : "tcp")
+
+// Close: both legs - the UDP transport and its TCP fallback - are closed, each once.
+//@ func (u *udpWithFallback) Close() (err error)
+//@   props C18
+//@   requires u != nil && u.u != nil && u.u.pool != nil && u.t != nil
+//@   requires rtInv(u.t) && u.t.cancelCause != nil && forallkey(k, u.t.conns, has(u.t.conns, k) ==> k != nil && k.c != nil) -- the TCP transport's monitor invariant
+//@   ghost nU int = 0
+//@   ghost nT int = 0
+//@   oncall PipelineTransport.Close: nU = nU + 1
+//@   oncall ReuseConnTransport.Close: nT = nT + 1
+//@   modifies *
+//@   ensures [C18:both-legs-closed-once] nU == 1 && nT == 1
+//@   callsite PipelineTransport.Close: [C18:its-own-udp-leg] arg0 == u.u
+//@   callsite ReuseConnTransport.Close: [C18:its-own-tcp-leg] arg0 == u.t
+
